@@ -375,9 +375,7 @@ func (env *Env) binary(e *ast.BinaryExpr) TV {
 	switch e.Op {
 	case token.ADD:
 		if at.Sort == SStr {
-			t := app(SStr, "sCat", at, bt)
-			x.vc.Assert(Eq(sLen(t), Add(sLen(at), sLen(bt))))
-			return TV{VTerm{t}, rt}
+			return TV{VTerm{x.strCat(at, bt)}, rt}
 		}
 		return TV{VTerm{Add(at, bt)}, rt}
 	case token.SUB:
@@ -570,6 +568,17 @@ func (env *Env) call(e *ast.CallExpr) TV {
 				return env.fail("typeIs(x, T)")
 			}
 			return boolTV(Eq(a.Tag, IntLit(x.eng.typeTag(t))))
+		case "extern":
+			// extern(x): the dynamic type of x is not a type of this package (or x is nil)
+			a, ok := env.expr(args[0]).V.(VIface)
+			if !ok {
+				return env.fail("extern(x) needs an interface value")
+			}
+			var cs []Term
+			for _, t := range x.eng.concreteTypes {
+				cs = append(cs, Neq(a.Tag, IntLit(x.eng.typeTag(t))))
+			}
+			return boolTV(And(cs...))
 		case "unbox":
 			a, ok := env.expr(args[0]).V.(VIface)
 			t := env.typeExpr(args[1])
